@@ -2249,9 +2249,13 @@ class ExpressionEvaluator(Parser):
             # here, so yield 0 instead of failing.
             if b == 0:
                 return _c_int(0, unsigned)
+            # C division truncates towards zero.
+            quotient = abs(a) // abs(b)
+            if (a < 0) != (b < 0):
+                quotient = -quotient
             if op == "/":
-                return _c_int(a // b, unsigned)
-            return _c_int(a % b, unsigned)
+                return _c_int(quotient, unsigned)
+            return _c_int(a - quotient * b, unsigned)
         else:
             raise ValueError("Not a binary operator.")
 
